@@ -79,6 +79,23 @@ def run_a(chk):
             vlib.run_scripts(chk, hashfn, c_exe, m_exe, scripts, hashfn.oracle)
         chk.extra["neighbourhood_search_ops"] = len(near)
         del chk.mismatches[max(before, 1):]
+        if not chk.oracle_failures:
+            # still nothing: brute-force scan on the implementation alone (release
+            # build, no model): every key below 2^28 for a few table sizes
+            import os as _os
+            ms = [16, 3, 1000003, (1 << 24) + 1]
+            chunk = 1 << 24
+            scans = [["scan %d %d %d" % (mm, lo, lo + chunk)] for mm in ms for lo in range(0, 1 << 28, chunk)]
+            outs, _ = vlib.run_exe(exes[-1][1], scans, env=dict(vlib.HARNESS_ENV, H_SCRIPT_TIMEOUT="120"))
+            found = []
+            for sc, o in zip(scans, outs):
+                if o and o[0].startswith("bad "):
+                    found.append("mul %s %s" % (o[0].split()[1], sc[0].split()[1]))
+            chk.extra["directed_scan"] = {"table_sizes": ms, "keys_per_size": 1 << 28, "found": found[:5]}
+            if found:
+                for name, c_exe in exes:
+                    vlib.run_scripts(chk, hashfn, c_exe, m_exe, [[f] for f in found[:5]], hashfn.oracle)
+                del chk.mismatches[max(before, 1):]
         # keep failing inputs small: one op
     for f in chk.oracle_failures:
         if f.get("area") == hashfn.NAME and len(f["script"]) > 1:
